@@ -33,7 +33,8 @@ def case(rng: Any, ctx: Ctx, index: int) -> None:
     if brank >= 1:
         forms += [xbatch, (1,) * brank, xbatch[-1:], tuple(1 if rng.integers(2) else d for d in xbatch)]
     bbatch = tuple(gen.pick(rng, forms))
-    band = gen.dy(rng, bbatch + (K,), dt, lo=-6, hi=6)
+    bdt = np.dtype(np.float32) if dt == np.float64 and rng.integers(3) == 0 else dt      # band values no wider than the data
+    band = gen.dy(rng, bbatch + (K,), bdt, lo=-6, hi=6)
     s = gen.S(xbatch + (n,), dt)
     method = gen.pick(rng, METHODS)
     fft_size = None
